@@ -108,7 +108,7 @@ func runNativeFuzz(perTarget int64, parallel int) *fuzzResult {
 				break
 			}
 			if attempt == 3 {
-				res.inconclusive = append(res.inconclusive, "native fuzzing: "+target+": the engine killed its own worker in 3 attempts although the reported inputs replay cleanly (machine overloaded?)")
+				res.inconclusive = append(res.inconclusive, "native fuzzing: "+target+": the engine lost its worker process in 3 attempts although the reported inputs replay cleanly in-process (machine overloaded?)")
 				break
 			}
 		}
@@ -172,7 +172,8 @@ func runFuzzTarget(res *fuzzResult, bin, tmp, target string, attempt int, perTar
 		if corpus == nil {
 			return
 		}
-		dst := filepath.Join(vd, "replays", fmt.Sprintf("C20-fuzz-%s-%x", target, md5.Sum(corpus))[:len("C20-fuzz-")+len(target)+1+16])
+		sum := md5.Sum(corpus)
+		dst := filepath.Join(vd, "replays", fmt.Sprintf("C20-fuzz-%s-%x", target, sum[:8]))
 		os.MkdirAll(filepath.Dir(dst), 0o755)
 		if os.WriteFile(dst, corpus, 0o644) == nil {
 			crasher += "\ncopied to " + dst
@@ -229,6 +230,14 @@ func runFuzzTarget(res *fuzzResult, bin, tmp, target string, attempt int, perTar
 			}
 			return false
 		}
+		res.falseAlarms++
+		return true
+	}
+	if strings.Contains(o, "fuzzing process hung or terminated unexpectedly") {
+		// The worker was lost on an entry of the seed corpus (no failing input is
+		// written for those). The seeds come from the generators of this check
+		// and inputs of the same shapes run in-process in the generated campaign,
+		// where a crash or a hang cannot go unnoticed; so: try again.
 		res.falseAlarms++
 		return true
 	}
